@@ -45,6 +45,7 @@ THEOREMS = {
         "csr_offsets_inv",
         "csr_adj_eq",
         "ts_adj_eq",
+        "both_contains_self_iff_loop",
         "proj_adj_eq",
         "proj_tombstone_partial",
         "proj_tombstone_refuted",
@@ -65,6 +66,7 @@ THEOREMS = {
         "tsbfs_leaves_eq",
         "tsdfs_leaves_eq",
         "stateless_bfs_dist_eq",
+        "traversal_segments_roundtrip",
         "numEdges_eq",
         "degrees_eq",
         # hooks/C14-fix3.patch (proposal): the statements that become live when it lands
@@ -103,6 +105,71 @@ CLASS_KEYS = {
     "toseg-index-panic": "C14:SerializedSegment.ToSegment:Edges-index-minus-one-panic",
     "am-numedges-returns-node-count": "C14:adjacencyMapDigraph.NumEdges:returns-node-count",
     "ts-numedges-ignores-tombstone": "C14:triplestore.NumEdges:ignores-DeleteEdge",
+}
+
+
+# clause of the statement in properties.jsonl -> the theorem(s) that prove it for ALL build histories / graphs / directions / deletion
+# sets, with the hypotheses they carry; or "searched only" / "tie only" with the reason. Goes into evidence coverage.clause_map.
+CLAUSES = {
+    "same node set and count in every container (adjacency map, CSR, triple store, every projection)":
+        "numNodes_eq (every container lists each node of the history exactly once; counts agree; a projection lists exactly the non-deleted "
+        "nodes for ARBITRARY deleted sets, ids foreign to the store included); normalize_nodes; factories_eq / fetch_eq for graphs built by "
+        "BuildAdjacencyMapGraph, util.BuildGraph, FetchDirectedGraph (every map key is a node, empty and nil lists alike). No hypothesis.",
+    "same adjacency set per node and direction (outbound, inbound, both)":
+        "adjmap_adj_eq, csr_adj_eq (through csr_offsets_inv: offsets/prefix sums/fill loop, proved for every builder state), ts_adj_eq (store with "
+        "ANY DeleteEdge tombstones), proj_adj_eq (every deleted-node/deleted-edge set; store built without DeleteEdge). No hypothesis; all three "
+        "directions. degrees_eq / dimensions_eq / numEdges_eq add callback counts and NumEdges.",
+    "'both' = union of in- and out-neighbours; contains the node itself only if it has a self loop":
+        "by definition of the spec adjacency (G.adj both = out ++ in, read as a set) in the four theorems above; spelled out for the containers "
+        "in both_contains_self_iff_loop (self is a both-neighbour iff the history added an edge v->v, not tombstoned for the store). No hypothesis.",
+    "deletion projections, nested, any argument provider":
+        "handle_view_eq (after ANY run of store ops / DeleteEdge / projections derived from the store or from other handles, a handle bound to "
+        "(dn,de) presents the store's graph projected by (dn,de): adjacency x3, nodes, NumNodes, NumEdges, EachAdjacentEdge = incident list), "
+        "handle_child_eq (child = parent minus (N2,E2); G.project composes), handle_noninterference (deriving never changes another handle). "
+        "The Duplex implementation of the argument sets (NewBitmap64With / ThreadSafeDuplex / doubly wrapped) is TIE ONLY: a set is a set in the "
+        "model; every provider x provider combination is exercised and the caller-owned bitmaps are re-observed after every op.",
+    "REFUTED INSTANCE: projection of a store carrying DeleteEdge tombstones (known finding C14:triplestoreProjection.EachAdjacentEdge:ignores-origin-DeleteEdge)":
+        "proj_tombstone_refuted (witness: edge 10 deleted, store out(1) = {}, its empty projection out(1) = {2}); what holds instead: "
+        "proj_tombstone_partial (the projection presents the UN-tombstoned edge list projected). Proposed repair hooks/C14-fix3.patch: "
+        "proj_adj_eq_fix3 / numEdges_eq_fix3 / traversals_eq_fix3 are proved for that semantics (not live).",
+    "REFUTED INSTANCE: triplestore.NumEdges ignores DeleteEdge (known finding C14:triplestore.NumEdges:ignores-DeleteEdge)":
+        "ts_numEdges_tombstone_refuted; what holds instead: numEdges_eq (the store counts every triple whatever was deleted).",
+    "reachability derived from any container = naive computation on the edge list":
+        "reach_eq (adjacency map, CSR, store with tombstones, every projection; all directions; Reach = nodes reachable in >= 1 step, the start "
+        "itself only on a cycle), reach_fuel_sufficient (the queue loop ends within NumNodes+1 pops), oracle_exact (the naive layer computation the "
+        "monitor uses IS Reachable for every closed graph and bound >= |nodes|). No hypothesis.",
+    "BFS distances derived from any container = shortest walk length on the edge list":
+        "bfsTree_dist_eq (each reachable node exactly once, with IsDist = length of a shortest walk of >= 1 step; all containers, all directions), "
+        "oracle_exact for the monitor's naiveDists. No hypothesis.",
+    "ID normalisation agrees with the edge list":
+        "normalize_iso (reverse index lists every node once; j is a neighbour of normal node i iff rev[j] is a neighbour of rev[i]), "
+        "normalize_nodes (normal ids are exactly 0..n-1), normalize_preserves_dist (Reachable / IsDist carried over). Adjacency map and CSR (the "
+        "only containers with Normalize). No hypothesis.",
+    "serialised path segments derived from any container agree with the naive computation":
+        "tsbfs_leaves_eq / tsdfs_leaves_eq / stateless_bfs_dist_eq: handler calls = (as a multiset) the maximal filter-admitted walks enumerated "
+        "naively (maxWalks / maxTerms), store and every projection; HYPOTHESIS Terminates: maxDepth > 0, or a rank function certifying the "
+        "filtered graph acyclic (excluded point = the real loops do not terminate). traversal_segments_roundtrip: every segment they produce "
+        "satisfies UnmarshalSegment(MarshalSegment seg) = seg (hypothesis: ids < 2^64); segment_roundtrip for any chain (hypotheses: non-empty, "
+        "root Edge = 0, ids < 2^64); toSegment_serialize / serialize_toSegment for SerializedSegment (well-formed |Nodes| = |Edges|+1; the "
+        "ill-formed shapes in toSegment_no_nodes / _excess_edges / _missing_edges).",
+    "REFUTED INSTANCE: BFSTreeFile.ReadEach (known finding C14:BFSTreeFile.ReadEach:scans-raw-file-not-gzip-stream)":
+        "searched only: no Lean model of the gzip file; the tie + monitor show 0 of N written segments are read back (corpus c14_F3_readeach.ops). "
+        "What IS proved about the file's content: the segments WriteZoneBFSTree marshals are the TSBFS leaves (tsbfs_leaves_eq) and each round-trips "
+        "(traversal_segments_roundtrip).",
+    "factory / builder surface":
+        "constructors_covered, covered_exist (Props/C14Api over the table regenerated from container/*.go every run): every exported function "
+        "returning a graph container is an op of the suite; factories_eq, fetch_eq.",
+    "searched only (tie)":
+        "that the Lean transcriptions are what container/*.go does: line diff model = implementation on every generated case (exact callback "
+        "sequences, CSR dense order, offsets via adjacency, projection handle digests after every op) + the spec monitor on every real answer; "
+        "exhaustive: all digraphs <= 4 nodes / <= 5 edges, edge multisets, all projection subsets, all nested (N1,E1)x(N2,E2) derivations x "
+        "provider combinations, all factory descriptions <= 3 keys, dense ids in all n! orders (n <= 4); random multigraphs with 64-bit ids. "
+        "Go's unbounded `for queue.Len() > 0` loops vs the model's fuel (fuel proved sufficient); BFSTreeFile; Duplex provider implementations; "
+        "callback multiplicity of CSR `both` and of projections (not part of the property: recorded, judged only within [distinct, incident]).",
+    "named assumptions":
+        "roaring bitmaps (Add/Or/Contains/Each ascending) = ascending lists; Go maps = association lists (results independent of range order); "
+        "gammazero/deque = list; encoding/binary little endian, compress/gzip trusted; ids < 2^64 in Go, naturals in Lean (segment theorems carry "
+        "the bound explicitly); TSStatelessBFS weights: small integral float64 in the tie, naturals in the model; single-threaded use.",
 }
 
 
@@ -157,6 +224,7 @@ def extra_coverage(ctx, stats):
             "projections: every deleted-node subset x deleted-edge subset of every small digraph": pj,
             "note": "small-scope enumeration supports the tie and the monitor; the for-all statement is carried by the Lean theorems",
         },
+        "clause_map": CLAUSES,
         "model_mode": MODEL_MODE, "tosegment_fix_live": TOSEGMENT_FIX, "tombstone_fix_live": TOMBSTONE_FIX,
         "multiplicity_info": "CSR reported a neighbour twice under `both` in %d adjacency answers (parallel/antiparallel/self-loop); recorded, not judged" % stats.get("info.csr.both.duplicate_callback", 0),
     }
@@ -210,7 +278,9 @@ SPEC = {
         "Reach/BFSTree theorems are stated for the queue loops with fuel NumNodes+1 (proved sufficient, reach_fuel_sufficient); the Go loops are unbounded",
         "BFSTreeFile.ReadEach is exercised only on files below one 4096-byte read buffer, where the current code deterministically yields no record",
     ],
-    "explanation": "Lean proofs over all build histories + differential tie + monitor on the real containers",
+    "explanation": "Lean proofs over all build histories (no sorry; axioms within {propext, Classical.choice, Quot.sound}) for the code as it is + differential tie + spec "
+                   "monitor on the real containers; clause -> theorem(s) with their hypotheses, the refuted instances (3 known findings) and what is searched only: "
+                   "see clause_map",
 }
 
 def run(spec, tier, seed, replay):
@@ -236,12 +306,23 @@ def run(spec, tier, seed, replay):
 
 MANIFEST = {
     "category": "proof",
-    "technique": "Lean 4 refinement proofs (adjacency map, CSR builder with prefix-sum invariant, triple store, projections, queue BFS) against an edge-list spec + differential correspondence and a spec monitor on the real Go containers",
-    "text": "Lean theorems over ALL build histories (arbitrary ids, self loops, parallel/antiparallel edges, isolated nodes): the adjacency map, the CSR "
-            "digraph (offset invariant proved by induction over the builder and fill loops) and — for outbound/inbound — the triple store and every "
-            "deleted-node/deleted-edge projection present exactly the edge list's adjacency sets and node count; Reach equals >=1-step reachability with "
-            "fuel |nodes|+1 proved sufficient; BFSTree reports every reachable node once with the length of a SHORTEST walk; Normalize is an isomorphism; segment marshalling round-trips; TSDFS/TSBFS/TSStatelessBFS hand their handler exactly the maximal filter-admitted walks (multiset equality with the naive enumeration, termination with an explicit fuel bound under maxDepth>0 or an acyclicity certificate); NumEdges of CSR / store / every projection equals the edge-list count. `C14_full` is the statement about the code as it is (F2 repaired by 789c790) and is proved (`c14`); the pre-repair "
-            "definitions are kept only for the `_old` refutations. The models are transcriptions of container/*.go "
-            "compared with the real code on exhaustive small graphs and random multigraphs every run, and the real answers are judged by the spec monitor.",
-    "note": "BFSTreeFile (gzip file round trip): tie + monitor only (no Lean theorem). Trusted: Lean kernel, roaring bitmaps, Go maps, deque, gzip.",
+    "technique": "Lean 4 refinement proofs (adjacency map, CSR builder with prefix-sum invariant, triple store, projection handles, queue BFS, deque traversals) against an edge-list spec + differential correspondence and a spec monitor on the real Go containers",
+    "text": "Lean theorems over ALL build histories (arbitrary ids, self loops, parallel/antiparallel edges, isolated and repeated nodes), for the code as it is in /repo: "
+            "the adjacency map, the CSR digraph (offset invariant proved through the builder, prefix sums and fill loop), the triple store (any DeleteEdge tombstones) "
+            "and every deleted-node/deleted-edge projection of a store built without DeleteEdge present exactly the edge list's node set, node count and adjacency sets "
+            "in all three directions (`both` = union; self only with a self loop: both_contains_self_iff_loop); nested projections are immutable values "
+            "(handle_view_eq, handle_child_eq, handle_noninterference); Reach = >=1-step reachability and BFSTree = shortest walk lengths from every container, the "
+            "queue loops end within NumNodes+1 pops, and the monitor's naive oracle is itself proved exact; Normalize (adjacency map, CSR) is an isomorphism onto 0..n-1 "
+            "preserving reachability and distances; MarshalSegment/UnmarshalSegment round-trip (root Edge = 0, ids < 2^64), SerializedSegment.ToSegment inverts the "
+            "serialisation on well-formed input; TSDFS/TSBFS/TSStatelessBFS hand their handler exactly the maximal filter-admitted walks of the naive enumeration — under "
+            "the hypothesis maxDepth > 0 or an acyclicity certificate (otherwise the real loops do not terminate) — and every segment they produce round-trips; NumEdges, "
+            "Degrees and Dimensions agree; the factories (BuildAdjacencyMapGraph, util.BuildGraph, FetchDirectedGraph) present the described graph and the table of "
+            "exported constructors is regenerated and decided every run. `C14_full` (def, = C14_for true) is proved (`c14`). Not covered by a theorem and reported "
+            "as known findings: projections / NumEdges / traversals of a store that carries DeleteEdge tombstones ignore them (precise statements "
+            "proj_tombstone_partial, proj_tombstone_refuted, ts_numEdges_tombstone_refuted; repair proposed, not in /repo), and BFSTreeFile.ReadEach reads nothing back "
+            "(tie + monitor only). The models are transcriptions of container/*.go compared with the real code on exhaustive small scopes and random multigraphs every "
+            "run; the real answers are judged by the spec monitor. Clause by clause: coverage.clause_map in the evidence.",
+    "note": "Searched only (tie): that the transcription is what the Go code does; BFSTreeFile (gzip file); the Duplex implementations the projection arguments arrive in; "
+            "callback multiplicity. Pre-repair definitions (F2 DirectionBoth, adjacency-map NumEdges, ToSegment) are kept only for the `_old` refutations and corpus "
+            "regressions; all three repairs are in /repo (789c790, bf4c010, 9a299c0). Trusted: Lean kernel, roaring bitmaps, Go maps, deque, encoding/binary, gzip.",
 }
